@@ -59,6 +59,10 @@ def run(ctx):
     _merge_sort(ctx, prog.func("mokapot.utils.merge_sort"))
     _first_seen_wins(ctx, prog.func(AC))
     _rollup_levels(ctx, prog.func("mokapot.brew_rollup.do_rollup"))
+    # the rollup competes exactly the rows of its inputs: files the tool
+    # wrote itself in an earlier run are not inputs (shared with C09)
+    from .c09 import _check_rollup_filter
+    _check_rollup_filter(ctx, "C03b-rollup-inputs-only")
     _dedup_switch(ctx)
     _chunk_dedup_keeps_best(ctx)
     _cli_mapping(ctx)
